@@ -6,6 +6,7 @@ import (
 	"context"
 	"fmt"
 	"reflect"
+	"runtime"
 	"sort"
 	"sync"
 	"sync/atomic"
@@ -38,6 +39,9 @@ type C07Call struct {
 	// map that the caller built once per binding and hands to every call with that binding, from
 	// every goroutine (its integers and integer lists are Go int / []int); a failing fetch is an absent value.
 	Ctx int `json:"ctx,omitempty"`
+	// Y: the instrumented fetcher yields the processor on every Y-th Get / Cached (0: never), so that
+	// other goroutines run between two fetches of one evaluation
+	Y int `json:"y,omitempty"`
 }
 
 type C07Case struct {
@@ -45,6 +49,10 @@ type C07Case struct {
 	Seq      []C07Call   `json:"seq"`
 	Par      [][]C07Call `json:"par"`
 	Consumer int         `json:"consumer"` // event consumer: 0 prompt, 1 buffered, 2 slow
+	// Procs: GOMAXPROCS during the concurrent part (0: the machine's). With one processor goroutines
+	// switch only where something yields or blocks - at the fetcher's yield points and at event
+	// sends - so whole evaluations of other goroutines run in the middle of this one.
+	Procs int `json:"procs,omitempty"`
 }
 
 const c07Bindings = 6
@@ -58,6 +66,7 @@ func genC07Calls(t *rapid.T, nprogs, lo, hi int) []C07Call {
 			Op:  pickW(t, "op", 6, 4, 1, 1, 2),
 			B:   rapid.IntRange(0, c07Bindings-1).Draw(t, "bind"),
 			Ctx: pickW(t, "ctx", 4, 1, 2, 2),
+			Y:   pickW(t, "yield", 3, 2, 1, 1),
 		}
 	}
 	return out
@@ -98,6 +107,7 @@ func genC07(t *rapid.T) C07Case {
 	ng := rapid.IntRange(2, depthMax(8, 16)).Draw(t, "goroutines")
 	lo, hi := 10, depthMax(50, 200)
 	c.Consumer = rapid.IntRange(0, 2).Draw(t, "consumer")
+	c.Procs = []int{0, 1, 2, 4}[pickW(t, "procs", 3, 2, 1, 1)]
 	if rapid.IntRange(0, 9).Draw(t, "crowd") == 0 {
 		// a crowd: hundreds of evaluations in flight at once - every program reports events to an
 		// unbuffered channel with a slow reader, so the goroutines pile up inside Eval / TryEval
@@ -241,7 +251,7 @@ func c07Do(e *eval.Expr, cc *eval.Config, u *Universe, call C07Call, sharedMaps 
 	if len(sharedMaps) > 0 && sharedMaps[0] != nil {
 		shared = sharedMaps[0][c07SharedKey(call)]
 	}
-	f := &Fetcher{Vars: vars, Fail: fail, Log: &Log{}}
+	f := &Fetcher{Vars: vars, Fail: fail, Log: &Log{}, Yield: call.Y}
 	if call.Ctx != 0 && (call.Op == 0 || call.Op == 1 || call.Op == 4) {
 		var ctx *eval.Ctx
 		if o := Safe(func() (eval.Value, error) {
@@ -500,6 +510,9 @@ func checkC07(c C07Case, r *Rec) *Violation {
 			atomic.CompareAndSwapInt32(&atFirstDone, -1, atomic.LoadInt32(&firstCalls))
 		}(gi, calls)
 	}
+	if c.Procs > 0 {
+		defer runtime.GOMAXPROCS(runtime.GOMAXPROCS(c.Procs))
+	}
 	close(start)
 	wg.Wait()
 	if bad != nil {
@@ -523,6 +536,7 @@ func checkC07(c C07Case, r *Rec) *Violation {
 	if overlapped {
 		r.Class("goroutines-overlapped")
 	}
+	r.Class(fmt.Sprintf("gomaxprocs:%d", c.Procs))
 	if len(c.Par) > 100 {
 		r.Class("goroutines:crowd(130..320)")
 	} else {
@@ -556,7 +570,7 @@ func checkC07(c C07Case, r *Rec) *Violation {
 
 var propC07 = Prop[C07Case]{
 	ID:       "C07",
-	Rule:     "histories over 1..3 shared compiled programs (typed random tree x optimization subset x {no events, ReportEvent, Debug}), 6 bindings each (three of them with an additional failing fetch, so successes and failures mix): a sequential part of 10..60 calls (Eval, TryEval, Dump, DumpTable, EvalBool) and a concurrent part of 2..8 (16 thorough) goroutines x 10..50 (200) calls started behind one barrier, each call with its own context (the harness's instrumented fetcher, the library's NewCtxFromVars over the values, an empty NewCtxFromVars context filled with Ctx.Set, or NewCtxFromVars over one raw-typed bindings map per binding that the caller keeps and shares between all goroutines); event consumer prompt / buffered / slow. Oracles: every call returns what the same call returns on a freshly compiled unshared program (itself cross-checked against R when unoptimized); the flat program read through the read-only hook (flags, child counts, jump indexes, stack slots, keys, values, operator identities, parent table, stack bound) is identical before and after; the test binary runs under the Go race detector (halt on first report; the case is written to disk before it runs). Non-trivial = at least two goroutines had completed a call when the first goroutine finished (measured) and the sequential history mixes failing and succeeding calls; distinct by the whole history",
+	Rule:     "histories over 1..3 shared compiled programs (typed random tree x optimization subset x {no events, ReportEvent, Debug}), 6 bindings each (three of them with an additional failing fetch, so successes and failures mix): a sequential part of 10..60 calls (Eval, TryEval, Dump, DumpTable, EvalBool) and a concurrent part of 2..8 (16 thorough) goroutines x 10..50 (200) calls started behind one barrier, GOMAXPROCS 1 / 2 / 4 / the machine's (drawn), each call with its own context (the harness's instrumented fetcher - which yields the processor on every 1st / 2nd / 3rd fetch or never (drawn per call), so that with few processors whole evaluations of other goroutines run between two fetches of one evaluation -, the library's NewCtxFromVars over the values, an empty NewCtxFromVars context filled with Ctx.Set, or NewCtxFromVars over one raw-typed bindings map per binding that the caller keeps and shares between all goroutines); event consumer prompt / buffered / slow. Oracles: every call returns what the same call returns on a freshly compiled unshared program (itself cross-checked against R when unoptimized); the flat program read through the read-only hook (flags, child counts, jump indexes, stack slots, keys, values, operator identities, parent table, stack bound) is identical before and after; the test binary runs under the Go race detector (halt on first report; the case is written to disk before it runs). Non-trivial = at least two goroutines had completed a call when the first goroutine finished (measured) and the sequential history mixes failing and succeeding calls; distinct by the whole history",
 	Gen:      genC07,
 	Check:    checkC07,
 	PreWrite: true,
